@@ -194,6 +194,12 @@ fn main() {
                     }
                 }
             }
+            "--hl" => {
+                // debug: vcheck --hl <mini|mini-nolocals|arith|tmpl|tmpl-combined> <file>
+                let bytes = std::fs::read(&args[i + 2]).unwrap();
+                vengine::checks::c17::debug_hl(&args[i + 1], &bytes);
+                return;
+            }
             "--list" => {
                 for c in checks::registry() {
                     println!("{}", c.id());
